@@ -711,7 +711,14 @@ def sc_params(V, P, cfg):
     kw = dict(direction=[0.0, 1.0, 0.0] if dim == 3 else [0.0, 1.0], xi_0=xi, p=p)
     if ns != "default":
         kw["nsampling"] = ns
+    epsv = None
+    if cfg.get("eps"):
+        # the smoothing parameter the user passes ("eps >= 0": zero, the exact minimum, is admissible)
+        epsv = V.real("eps", lo=0, default=0.0)
+        kw["eps"] = epsv
     m = pym.OverhangFilter(pym.Signal("x", np.zeros(dom.nel)), domain=dom, **kw)
+    if epsv is not None:
+        K.eq("eps == the value passed to the constructor", m.eps, epsv, "parameters")
     nsv = m.nsampling
     K.true("nsampling-default", nsv == ({2: 3, 3: 5}[dim] if ns == "default" else ns), "parameters", info=nsv)
     m.set_parameters(np.float64)
@@ -804,6 +811,7 @@ def items(tier):
     out = []
     for dim, ns in ((2, "default"), (3, "default"), (3, 9)):
         out.append(dict(kind="params", id="params-%dd-ns%s" % (dim, ns), dim=dim, nsampling=ns))
+        out.append(dict(kind="params", id="params-%dd-ns%s-eps" % (dim, ns), dim=dim, nsampling=ns, eps=True))
     for dim in (3, 2):
         out.append(dict(kind="string-symx", id="string-symx-unbounded-%dd" % dim, dim=dim))
     if not q:    # refutation search only ("Not confirmed" is all CrossHair can say within the budget); the unbounded
